@@ -234,6 +234,26 @@ fn control_matrix(e: &mut Eng, thorough: bool) {
         ops.push(REPE); // one too many when depth <= 4096
         e.run(&single(&ops, &base), JudgeOpts { mapped: false, lockstep: true, eval: ev }, "control-matrix");
     }
+    // halting inside active loops (single and nested, at every counter value): the run ends there, pc stays on the
+    // halting op and the loops stay active
+    for n in [1i64, 2, 3] {
+        for dir in [0i64, 1] {
+            for k in [0i64, 1, 2, 3] {
+                if e.mine() {
+                    let ops = vec![PUSH(n), PUSH(dir), REP, REPC, PUSH(k), EQ, HLTIF, REPE, PUSH(42)];
+                    e.run(&single(&ops, &base), JudgeOpts { mapped: true, lockstep: true, eval: ev }, "control-matrix");
+                }
+                if e.mine() {
+                    let ops = vec![PUSH(2), PUSH(1), REP, PUSH(n), PUSH(dir), REP, REPC, PUSH(k), EQ, HLTIF, REPE, REPC, POP, REPE, PUSH(1)];
+                    e.run(&single(&ops, &base), JudgeOpts { mapped: true, lockstep: true, eval: ev }, "control-matrix");
+                }
+            }
+            if e.mine() {
+                let ops = vec![PUSH(n), PUSH(dir), REP, PUSH(5), HLT, REPE, PUSH(1)];
+                e.run(&single(&ops, &base), JudgeOpts { mapped: true, lockstep: true, eval: ev }, "control-matrix");
+            }
+        }
+    }
     // halts and panics everywhere
     for c in [-1i64, 0, 1, 2] {
         for op in [HLTIF, PNCIF] {
